@@ -46,3 +46,20 @@ pub proof fn lemma_items_ok_push(l: Seq<String>, s: String)
         if i < l.len() { assert(l.push(s)[i] == l[i]); }
     }
 }
+
+// one ASCII character takes one byte
+pub proof fn lemma_utf8_len_ascii1(s: Seq<char>)
+    requires s.len() == 1, (s[0] as u32) < 128,
+    ensures utf8_len(s) == 1,
+{
+    axiom_utf8_len(s);
+    assert(is_ascii_seq(s));
+}
+
+pub proof fn lemma_utf8_len_add(a: Seq<char>, b: Seq<char>)
+    ensures utf8_len(a + b) == utf8_len(a) + utf8_len(b),
+{
+    axiom_utf8_bytes(a, b);
+    axiom_utf8_bytes(b, a);
+    axiom_utf8_bytes(a + b, a);
+}
